@@ -294,7 +294,7 @@ def exact_cases(draw):
 
 
 def campaign_exact(ctx):
-    ctx.search(exact_cases(), exact_oracle(ctx), ctx.budget(8000, 400000))
+    ctx.search(exact_cases(), exact_oracle(ctx), ctx.budget(24000, 400000))
 campaign_exact.shards = (6, 16)
 
 
